@@ -19,8 +19,35 @@ def keystr(k):
     return "%x %x %x %x" % tuple(k)
 
 
+INIT0 = (0xdbe6d5d5fe4cce2f, 0xa4093822299f31d0, 0x13198a2e03707344, 0x243f6a8885a308d3)
+INIT1 = (0x3bd39e10cb0ef593, 0xc0acf169b5f18a8c, 0xbe5466cf34e90c6c, 0x452821e638d01377)
+M64 = (1 << 64) - 1
+EDGE_LANES = [0x00000000FFFFFFFF, 0xFFFFFFFFFFFFFFFF, 0xFFFFFFFF00000000, 0x00000000FFFFFFF0, 0xFFFFFFFEFFFFFFFF,
+              0x7FFFFFFFFFFFFFFF, 0x8000000000000000, 0x0000000080000000, 0x00000000FFFFFFE1, 0, 1, 0x0000000100000000,
+              0xFFFFFFFF7FFFFFFF, 0x3FFFFFFFFFFFFFFF, 0xC000000000000000]
+
+
+def rot32(x):
+    return ((x << 32) | (x >> 32)) & M64
+
+
+def boundary_key(rng):
+    """a key that puts chosen edge values into the initial v0 (= init0 ^ key) or v1 (= init1 ^ rot32(key)) lanes,
+    so that carries across bit 32 / bit 64 and sign bits are exercised by the first remainder step"""
+    k = []
+    target_v1 = rng.below(3) == 0
+    for i in range(4):
+        e = rng.choice(EDGE_LANES)
+        if rng.below(4) == 0:
+            e = (e - rng.below(32)) & M64
+        k.append(rot32(INIT1[i] ^ e) if target_v1 else (INIT0[i] ^ e))
+    return tuple(k)
+
+
 def rand_key(rng):
-    m = rng.below(8)
+    m = rng.below(11)
+    if m >= 8:
+        return boundary_key(rng)
     if m == 0:
         return ZERO_KEY
     if m == 1:
